@@ -1052,3 +1052,30 @@ impl AssemblyCode {
         nb_fixes
     }
 }
+
+// Verification hook (H1): read-only view of the private line vector.
+#[cfg(cc6502_verif)]
+#[derive(Debug, Clone)]
+pub enum VerifLine {
+    Label(String),
+    Instruction(AsmInstruction),
+    Inline(String, u32),
+    Comment(String),
+    Dummy,
+}
+
+#[cfg(cc6502_verif)]
+impl AssemblyCode {
+    pub fn verif_lines(&self) -> Vec<VerifLine> {
+        self.code
+            .iter()
+            .map(|l| match l {
+                AsmLine::Label(s) => VerifLine::Label(s.clone()),
+                AsmLine::Instruction(i) => VerifLine::Instruction(i.clone()),
+                AsmLine::Inline(s, n) => VerifLine::Inline(s.clone(), *n),
+                AsmLine::Comment(s) => VerifLine::Comment(s.clone()),
+                AsmLine::Dummy => VerifLine::Dummy,
+            })
+            .collect()
+    }
+}
